@@ -134,7 +134,7 @@ pub fn check_tree(e: &Expression, case: &str, rng: &mut Rng, rep: &mut Report, e
 
 pub fn run(ctx: &Ctx, rep: &mut Report) {
     // stream kinds: every supported test kind x comparison form x unit, and every action kind, alone
-    let n_kind = ctx.pick(40, 400) * (SUPPORTED_TESTS + SUPPORTED_ACTIONS) as u64;
+    let n_kind = ctx.pick(40, 4000) * (SUPPORTED_TESTS + SUPPORTED_ACTIONS) as u64;
     par_cases(ctx, "kinds", n_kind, rep, |i, rep| {
         let mut r = Rng::for_case(ctx.seed, "kinds", i);
         let k = (i as usize) % (SUPPORTED_TESTS + SUPPORTED_ACTIONS);
@@ -142,7 +142,7 @@ pub fn run(ctx: &Ctx, rep: &mut Report) {
         check_tree(&e, &format!("kinds:{}", i), &mut r, rep, 6);
     });
     // stream fields: every supported format directive and escape alone and in pairs
-    let n_fields = ctx.pick(300, 5000);
+    let n_fields = ctx.pick(300, 60_000);
     par_cases(ctx, "fields", n_fields, rep, |i, rep| {
         let mut r = Rng::for_case(ctx.seed, "fields", i);
         let a = FormatElement::Field(field_by_index((i as usize) % SUPPORTED_FIELDS, &mut r));
@@ -157,7 +157,7 @@ pub fn run(ctx: &Ctx, rep: &mut Report) {
         check_tree(&e, &format!("fields:{}", i), &mut r, rep, 6);
     });
     // stream tree: random trees through the constructors
-    let n_tree = ctx.pick(3000, 150_000);
+    let n_tree = ctx.pick(3000, 1_200_000);
     par_cases(ctx, "tree", n_tree, rep, |i, rep| {
         let mut r = Rng::for_case(ctx.seed, "tree", i);
         let leaves = 1 + r.usize(7);
@@ -172,7 +172,7 @@ pub fn run(ctx: &Ctx, rep: &mut Report) {
         check_tree(&e, &format!("heavy:{}", i), &mut r, rep, 4);
     });
     // stream text: the same through the text route
-    let n_text = ctx.pick(500, 20_000);
+    let n_text = ctx.pick(500, 200_000);
     par_cases(ctx, "text", n_text, rep, |i, rep| {
         let mut r = Rng::for_case(ctx.seed, "text", i);
         let leaves = 1 + r.usize(5);
